@@ -4,6 +4,7 @@
   and the drop log.
 -/
 import RoModel.Share
+import RoModel.Spec.Share
 namespace Ro.Share
 
 /-! ### lists -/
